@@ -6,8 +6,10 @@ Two layers, as in the Python code:
 
 * **surface layer** (`SExpr`, `elabE`): what the operator overloads build.  A JSON program of
   `harness/vh/dsl.py` is walked exactly like the harness walks it with the real classes; the result of every
-  Python-level operation is a `PyVal` (a plain `int`, an `Expression` object tree, or `None` — `Sum.__add__`
-  with an integer mutates and returns nothing).  Reflected operators, `Register.__add__ → Sum`,
+  Python-level operation is a `PyVal` (a plain `int` or an `Expression` object tree).  Expression objects are
+  never mutated by the operator overloads (`Sum.__add__`/`__sub__` with an integer build a new `Sum`), so an object
+  that is used twice behaves like two copies of its tree: values of `Expr` need no identity.  Reflected operators,
+  `Register.__add__ → Sum`, `Sum ± int → Sum`,
   the subclass-first rule of Python's binary operator protocol (`Binary + Sum` calls `Sum.__radd__`),
   `__rshift__` choosing ARSH/RSH by signedness are all here.
 * **emission layer** (`calculate`, `load`, `setReg`, `setMem`): a state monad over
@@ -262,7 +264,6 @@ def calculate : Expr → Option Nat → Option Bool → Bool → GenM CalcRes
 inductive PyVal where
   | int (v : Int)
   | ex (e : Expr)
-  | none
 deriving Repr, Inhabited
 
 def typeError {α} : Except AsmError α := .error (.other "TypeError")
@@ -271,7 +272,6 @@ def typeError {α} : Except AsmError α := .error (.other "TypeError")
 def ensureExpr : PyVal → Except AsmError Expr
   | .int v => .ok (.const v)
   | .ex e => .ok e
-  | .none => typeError
 
 def mkBin (op : BinOp) (l r : Expr) (signed : Bool) : PyVal := .ex (.bin op l r signed .plain)
 
@@ -293,25 +293,32 @@ def isPlainBinary : Expr → Bool
 
 def mkSum (self : Expr) (c : Int) : PyVal := .ex (.bin .add self (.const c) (c < 0) .sum)
 
+/-- `Sum.__add__(c)` / `Sum.__sub__(-c)` with an `int`: a **new** object
+`Sum(self.left, Constant(self.right.value + c))`; `self` and its `Constant` are left alone.  `none` for every
+object that is no `Sum` -/
+def sumShift (c : Int) : Expr → Option PyVal
+  | .bin .add l (.const c0) _ .sum => some (mkSum l (c0 + c))
+  | _ => none
+
 /-- `self.__add__(value)` (also `__radd__`, which is the same function in every class) -/
 def exprAdd (self : Expr) (value : PyVal) : Except AsmError PyVal :=
   match value with
   | .int c =>
     if isLongReg self then pure (mkSum self c)                -- Register.__add__ → Sum
-    else if isSumObj self then pure .none                     -- Sum.__add__: mutates, returns nothing
-    else exprBinary .add self value
-  | _ => exprBinary .add self value
+    else match sumShift c self with
+      | some s => pure s                                      -- Sum.__add__ → Sum
+      | none => exprBinary .add self value
+  | _ => exprBinary .add self value                           -- also `Sum + expression`: `super().__add__`
 
 /-- `self.__sub__(value)` -/
 def exprSub (self : Expr) (value : PyVal) : Except AsmError PyVal :=
   match value with
   | .int c =>
     if isLongReg self then pure (mkSum self (-c))
-    else if isSumObj self then pure .none
-    else exprBinary .sub self value
-  | _ =>
-    if isSumObj self then exprBinary .add self value          -- Sum.__sub__ falls back to `super().__add__`
-    else exprBinary .sub self value
+    else match sumShift (-c) self with
+      | some s => pure s                                      -- Sum.__sub__ → Sum
+      | none => exprBinary .sub self value
+  | _ => exprBinary .sub self value                           -- also `Sum - expression`: `super().__sub__`
 
 inductive SOp where
   | add | sub | mul | floordiv | mod | and | or | xor | lsh | rsh
@@ -386,19 +393,15 @@ def pyOp (op : SOp) (a b : PyVal) : Except AsmError PyVal :=
     -- only `Binary + Sum`, which calls `Sum.__radd__` first
     if op == .add && isPlainBinary l && isSumObj r then exprAdd r (.ex l)
     else exprOp op l b
-  | .ex l, _ => exprOp op l b
-  | .none, _ => typeError
-  | .int _, .none => typeError
+  | .ex l, .int _ => exprOp op l b
 
 def pyNeg : PyVal → Except AsmError PyVal
   | .int v => pure (.int (-v))
   | .ex e => pure (.ex (.neg e))
-  | .none => typeError
 
 def pyAbs : PyVal → Except AsmError PyVal
   | .int v => pure (.int (Int.ofNat v.natAbs))
   | .ex e => pure (.ex (.abs e))
-  | .none => typeError
 
 /-! ## surface programs -/
 
@@ -488,7 +491,6 @@ def memItem (fmt : Fmt) : PyVal → Except AsmError PyVal
       | _ => typeError
     | _ => pure (.ex (.mem fmt e))
   | .int _ => .error (.other "AttributeError")                 -- raised later, by `address.calculate`; see `elabStmt`
-  | .none => .error (.other "AttributeError")
 
 /-- walk a surface expression like `dsl.Built.expr` does, operands left to right -/
 def elabE (env : List VarLoc) : SExpr → Except AsmError PyVal
@@ -641,20 +643,6 @@ def abs32 : Expr → Bool → Bool
   | .abs a, L => (!L && !longRegChain a) || abs32 a L
   | .mem _ a, _ => a.asSum.isNone && abs32 a true
 
-/-- *sum-minus* (surface level): `Sum - expression` falls back to `__add__` -/
-def sumMinus (env : List VarLoc) : SExpr → Bool
-  | .c _ => false
-  | .reg _ _ => false
-  | .var _ => false
-  | .bin op a b =>
-    sumMinus env a || sumMinus env b ||
-      (op == .sub && (match elabE env a, elabE env b with
-        | .ok (.ex x), .ok (.ex _) => isSumObj x
-        | _, _ => false))
-  | .neg a => sumMinus env a
-  | .abs a => sumMinus env a
-  | .m _ a => sumMinus env a
-
 /-- the width a statement asks for and whether/where its value is forced -/
 def Dest.long (env : List VarLoc) : Dest → Bool
   | .reg view _ => view.long
@@ -673,6 +661,6 @@ def stmtClasses (env : List VarLoc) : Stmt → List String
       | .ok (.ex x) => [("abs-32", abs32 x L), ("narrow-reg-in-64", narrowIn64 x L forced dc),
                         ("unary-32-in-64", neg32in64 x L), ("unary-in-place", unaryInPlace x forced)]
       | _ => []
-    ((("sum-minus", sumMinus env e) :: t).filter (·.2)).map (·.1)
+    (t.filter (·.2)).map (·.1)
 
 end Ebv.Gen
